@@ -76,6 +76,13 @@ func (vm valueModel) cons(c m.ConsM, expr hclsyntax.Expression, depth int) (Valu
 	}
 	switch c.K {
 	case "any":
+		if c.Skip {
+			// the schema asks to leave literal collection constructors alone here
+			switch expr.(type) {
+			case *hclsyntax.TupleConsExpr, *hclsyntax.ObjectConsExpr:
+				return out, false
+			}
+		}
 		return vm.typed(c.Ty.Cty(), expr, true, depth)
 	case "littype":
 		return vm.typed(c.Ty.Cty(), expr, false, depth)
